@@ -135,20 +135,20 @@ class FastHierarchyAnalyzer(HierarchyAnalyzerBase):
                 raise RuntimeError(f'Selection-choice nodes left for dv: {opt_idx}')
             return tuple(taken_sel_opt), graph
 
+        # Check cache: the imputed vector depends on where the search starts and on which variables are fixed, so only
+        # the requested vector itself can be looked up (not the neighbors tried on the way)
+        imputation_cache_key = (tuple(opt_idx), tuple(is_fixed))
+        if imputation_cache_key in self._imputation_cache:
+            outputs = self._imputation_cache[imputation_cache_key]
+            if tuple(outputs[1]) not in exclude:
+                return outputs
+
         # Iterate over current and neighboring design vectors
-        tried = []
         opt_idx_imp = opt_idx
         graph_instance = None
         for opt_idx_try in self._iter_neighborhood(opt_idx, is_fixed):
-            tried.append(opt_idx_try)
             if opt_idx_try in exclude:
                 continue
-
-            # Check cache
-            if opt_idx_try in self._imputation_cache:
-                outputs = self._imputation_cache[opt_idx_try]
-                if tuple(outputs[1]) not in exclude:
-                    return outputs
 
             # Try to get graph
             try:
@@ -158,7 +158,6 @@ class FastHierarchyAnalyzer(HierarchyAnalyzerBase):
                 exclude.add(opt_idx_try)
                 continue
 
-            tried.append(opt_idx_imp)
             if opt_idx_imp in exclude:
                 exclude.add(opt_idx_try)
                 continue
@@ -177,8 +176,7 @@ class FastHierarchyAnalyzer(HierarchyAnalyzerBase):
         choice_opt_idx = list(opt_idx_imp)
         activeness = list(np.array(choice_opt_idx) != X_INACTIVE_VALUE)
         outputs = (graph_instance, choice_opt_idx, activeness, None)
-        for key in tried:
-            self._imputation_cache[key] = outputs
+        self._imputation_cache[imputation_cache_key] = outputs
         return outputs
 
     def _iter_neighborhood(self, opt_idx: List[int], is_fixed: List[bool]) -> Generator[Tuple[int, ...], None, None]:
